@@ -43,6 +43,12 @@ def main():
         shutil.copytree("/repo/panoptica", os.path.join(d, "panoptica"), ignore=shutil.ignore_patterns("__pycache__"))
         shutil.copytree("/repo/unit_tests", os.path.join(d, "unit_tests"), ignore=shutil.ignore_patterns("__pycache__"))
         shutil.copy(os.path.join(src, "demo.py"), os.path.join(d, "demo.py"))
+        helpers = []
+        for hd in {src, os.path.join(wt, "_seeded")}:  # helper modules some demos import
+            for f in os.listdir(hd):
+                if f.endswith(".py") and f != "demo.py" and os.path.isfile(os.path.join(hd, f)):
+                    shutil.copy(os.path.join(hd, f), os.path.join(d, f))
+                    helpers.append(os.path.join(hd, f))
         env = {**os.environ, "PYTHONPATH": d, "PANOPTICA_CITATION_REMINDER": "false"}
         demo = open(os.path.join(d, "demo.py")).read().replace(wt, d)
         open(os.path.join(d, "demo.py"), "w").write(demo)
@@ -81,6 +87,8 @@ def main():
         os.makedirs(dest, exist_ok=True)
         shutil.copy(os.path.join(src, "patch.diff"), dest)
         shutil.copy(os.path.join(src, "demo.py"), dest)
+        for h in helpers:
+            shutil.copy(h, dest)
         json.dump(meta, open(os.path.join(dest, "meta.json"), "w"), indent=1)
         print(name, "confirmed" if ok else "NOT-CONFIRMED", {p: ("CAUGHT" if c["caught"] else f"missed(exit {c['exit']})") for p, c in checks.items()},
               f"demo {rc0}->{rc1}", meta["unit_tests_with_change"])
